@@ -65,6 +65,34 @@ def getApiVersion (st : ApiVersionsState) (key : Int) (attempts : List Attempt) 
     | some (.ok st') => (lookupVersion key st').map (fun v => .ok (st', v))
   | st => (lookupVersion key st).map (fun v => .ok (st, v))
 
+/-- `KafkaClient.send_produce_request`, the lines that hand the version on:
+    ```
+    api_ver = yield self.get_api_version(KafkaCodec.PRODUCE_KEY)
+    encoder = partial(KafkaCodec.encode_produce_request, acks=acks, timeout=timeout, api_version=api_ver)
+    decoder = None if acks == 0 else partial(KafkaCodec.decode_produce_response, api_version=api_ver)
+    ```
+    Result: the new discovery state, the `api_version` the encoder is called with, and the one the
+    decoder is called with (`none`: no decoder, the broker sends no reply for `acks = 0`). -/
+def sendProduceVersions (st : ApiVersionsState) (attempts : List Attempt) (acks : Int) :
+    Option (R (ApiVersionsState × Int × Option Int)) :=
+  match getApiVersion st glueProduceKey attempts with
+  | none => none
+  | some (.error e) => some (.error e)
+  | some (.ok (st', apiVer)) => some (.ok (st', apiVer, if acks = 0 then none else some apiVer))
+
+/-- `KafkaClient.send_fetch_request`:
+    ```
+    api_ver = yield self.get_api_version(KafkaCodec.FETCH_KEY)
+    encoder = partial(KafkaCodec.encode_fetch_request, …, api_version=api_ver)
+    decoder = partial(KafkaCodec.decode_fetch_response, api_version=api_ver)
+    ``` -/
+def sendFetchVersions (st : ApiVersionsState) (attempts : List Attempt) :
+    Option (R (ApiVersionsState × Int × Int)) :=
+  match getApiVersion st glueFetchKey attempts with
+  | none => none
+  | some (.error e) => some (.error e)
+  | some (.ok (st', apiVer)) => some (.ok (st', apiVer, apiVer))
+
 /-- `Producer._send_requests`: `if self.client._api_versions: magic = 1 else: magic = 0` — the
     truthiness of `None`, `0`, `[]` and a non-empty table; it is evaluated BEFORE
     `send_produce_request` runs the discovery. -/
